@@ -1,8 +1,9 @@
 #!/usr/bin/env python3
-"""tools/seed_matrix.py [--jobs N] [<key> ...]
+"""tools/seed_matrix.py [--jobs=N] [--only-own] [<key> ...]
 Re-runs every registered quick check (current code) against every seeded change and refreshes the detection fields of
 seeded/<key>/meta.json ('quick_checks', 'caught_by', 'own_check_catches', 'matrix_verif_commit'); the confirmation
-fields written by seed_eval.py (demo, test suite) are left as they are."""
+fields written by seed_eval.py (demo, test suite) are left as they are. --only-own re-runs only the property's own check
+(the other columns keep the result of the last full evaluation)."""
 import glob
 import json
 import os
@@ -42,8 +43,8 @@ def one(key):
         rc, o = sh(f'git -C {scratch} apply {patch}')
         if rc != 0:
             return key, 'patch does not apply'
-        caught = {}
-        for cid in ALL:
+        caught = dict(meta.get('quick_checks') or {}) if ONLY_OWN else {}
+        for cid in ([pid] if ONLY_OWN else ALL):
             rc, o = sh(f'./check {cid} quick', cwd=VERIF,
                        env={'VERIF_PACKAGE_ROOT': scratch, 'VERIF_OUT': out, 'VERIF_SEED': '1'})
             sigs = [l.strip().split(']')[0].lstrip('[') for l in o.splitlines() if l.startswith('  [')]
@@ -52,13 +53,16 @@ def one(key):
         meta['caught_by'] = [c for c, v in caught.items() if v['rc'] == 1]
         meta['harness_errors'] = [c for c, v in caught.items() if v['rc'] not in (0, 1)]
         meta['own_check_catches'] = caught[pid]['rc'] == 1
-        meta['matrix_verif_commit'] = sh('git -C /verif rev-parse --short HEAD')[1].strip()
+        meta['own_check_verif_commit' if ONLY_OWN else 'matrix_verif_commit'] = sh('git -C /verif rev-parse --short HEAD')[1].strip()
         json.dump(meta, open(mpath, 'w'), indent=1)
         return key, (meta['own_check_catches'], meta['caught_by'], meta['harness_errors'])
     finally:
         sh(f'git -C /repo worktree remove --force {scratch}')
         shutil.rmtree(scratch, ignore_errors=True)
         shutil.rmtree(out, ignore_errors=True)
+
+
+ONLY_OWN = '--only-own' in sys.argv
 
 
 def main():
